@@ -5,7 +5,7 @@
   check), the partial theorem with explicit decidable exclusions, and non-vacuity examples.
 -/
 import MinkProofs.SortLemmas
-import MinkModel.Walk
+import MinkModel.Passes
 namespace Mink.C02
 open Mink
 
@@ -34,11 +34,9 @@ def CountsStatement : Prop := ∀ ps : List MParam,
   (counts ps).bi = (slotSections ps).count 0 ∧ (counts ps).bo = (slotSections ps).count 1 ∧
   (counts ps).oi = (slotSections ps).count 2 ∧ (counts ps).oo = (slotSections ps).count 3
 
-/-- **full statement (bound)**: an accepted method has every count ≤ 15 — there is no such
-    check anywhere in the pipeline, `backendOk` only stops at 255 -/
-def BoundStatement : Prop := ∀ ps : List MParam,
-  ((counts ps).bi ≤ 255 ∧ (counts ps).bo ≤ 255 ∧ (counts ps).oi ≤ 255 ∧ (counts ps).oo ≤ 255) →
-  (counts ps).fits15 = true
+/-- **(bound)**: a method that passes the interface verifier has every count ≤ 15 (the check
+    `argument_counts` added by the fix; before it nothing bounded the counts) -/
+def BoundStatement : Prop := ∀ f : MFunc, checkFunc f = .ok () → (counts f.params).fits15 = true
 
 /-! ### witnesses (names are arbitrary ids) -/
 
@@ -70,11 +68,21 @@ theorem counts_refuted : ¬ CountsStatement := by
 
 example : slotSections wSmallObj = [0, 2] ∧ counts wSmallObj = ⟨1, 0, 0, 0⟩ := by decide
 
-theorem bound_refuted : ¬ BoundStatement := by
-  intro h; exact absurd (h w17 (by decide)) (by decide)
+theorem bound_holds : BoundStatement := by
+  intro f h
+  unfold checkFunc at h
+  split at h
+  · simp at h
+  · split at h
+    · simp at h
+    · split at h
+      · simp at h
+      · rename_i hf; simpa using hf
 
-/-- the counts word of the 17-buffer method overflows into the BO nibble: it reads as (1,1,0,0) -/
+/-- why the bound matters: the counts word of a 17-buffer method would overflow into the BO
+    nibble and read as (1,1,0,0); such a method is now refused -/
 example : (counts w17).pack = 17 ∧ 17 % 16 = 1 ∧ (17 / 16) % 16 = 1 := by decide
+example : (match checkFunc ⟨0, w17, 0, false, false⟩ with | .ok _ => true | .error _ => false) = false := by decide
 
 /-! ### partial theorem: section order -/
 
